@@ -92,7 +92,7 @@ def _zc_pre(ctx):
     wav = ctx.self_
     t, step = ctx.arg(0, "targetTime"), ctx.arg(1, "timeStep", 0.002)
     samples = _samples_of(wav)
-    if samples is None or not samples or not (num(t) and num(step)) or step <= 0:
+    if samples is None or not samples or not (num(t) and num(step)) or step < 0:
         return SKIP
     rate = wav.frameRate
     dur = len(samples) / rate
@@ -101,7 +101,7 @@ def _zc_pre(ctx):
         return SKIP
     outer = not _budget["active"]
     if outer:
-        _budget.update(active=True, count=0, limit=2 * (math.ceil(dur / step) + 3))
+        _budget.update(active=True, count=0, limit=2 * (math.ceil(dur / step) + 3) if step > 0 else 8)  # (a step of 0 holds no sample at all: refused before any search)
     return (samples, rate, t, step, outer, _raw_of(wav))
 
 
@@ -218,6 +218,11 @@ def _tgz_post(ctx):
             return
         if ts["t"] == "I" and [e[-1] for e in tr["entries"]] != [e[-1] for e in ts["entries"]]:
             REC.violation(PROP, "zc.tg", "tgBoundariesToZeroCrossings", case, "tier %r: label order changed" % ts["name"], sig, mech)
+            return
+        if not snap.wellformed_times(tr):
+            # "keeping tier order ... (points that move past each other may swap places)": whatever moved, the tier that comes back is
+            # a tier - its entries in time order
+            REC.violation(PROP, "zc.tg", "tgBoundariesToZeroCrossings", case, "tier %r comes back ill-formed (entries out of time order, or overlapping): %r" % (ts["name"], tr["entries"]), sig, dict(mech, illformed_result=True))
             return
         old_on_grid = all(W.on_grid(v, rate) for e in ts["entries"] for v in e[:-1])
         if old_on_grid:
@@ -465,7 +470,7 @@ def _workload(tier, rng, shard, nshards, work=None):
             guarded(wav.findNearestZeroCrossing, i / rate, rng.choice(steps))
         for _ in range(4):
             guarded(wav.findNearestZeroCrossing, rng.uniform(0, n / rate), rng.choice(steps))
-        guarded(wav.findNearestZeroCrossing, rng.randrange(0, n + 1) / rate, rng.choice([1 / rate, 1.5 / rate, 0.5 / rate]))
+        guarded(wav.findNearestZeroCrossing, rng.randrange(0, n + 1) / rate, rng.choice([1 / rate, 1.5 / rate, 0.5 / rate, 0, 0.0]))
         if work is not None and k % 3 == 0:
             # the same recording queried through its file (QueryWav never loads it): same questions, same kind of answers
             import os
@@ -518,7 +523,14 @@ def _workload(tier, rng, shard, nshards, work=None):
             REC.cls("C18:textgrid-longer-than-its-tiers")
         else:
             tg.addTier(make_tier("I", "words", ents, 0.0, dur), reportingMode="silence")
-        marks = [(p / rate, rng.choice(["m", "m", "n"]) if k % 2 else "m%d" % j) for j, p in enumerate(sorted(rng.sample(range(0, n + 1), rng.randrange(0, 6))))]
+        if k % 3 == 0:
+            # marks on neighbouring samples (a burst, a click train): each is moved on its own, so two of them can end up in reverse order
+            p0 = rng.randrange(0, max(1, n - 6))
+            mpos = sorted(set([p0, p0 + 1] + ([p0 + 2] if rng.random() < 0.5 else []) + rng.sample(range(0, n + 1), rng.randrange(0, 3))))
+            REC.cls("C18:points-on-neighbouring-samples")
+        else:
+            mpos = sorted(rng.sample(range(0, n + 1), rng.randrange(0, 6)))
+        marks = [(p / rate, rng.choice(["m", "m", "n"]) if k % 2 else "m%d" % j) for j, p in enumerate(mpos)]
         tg.addTier(make_tier("P", "marks", marks, 0.0, dur if not (k % 4 == 3 and marks and tg.getTier("words").maxTimestamp < dur) else max(marks[-1][0], tg.getTier("words").maxTimestamp)), reportingMode="silence")
         guarded(praatio_scripts.tgBoundariesToZeroCrossings, tg.new(), wav, rng.random() < 0.8, rng.random() < 0.8)
         if work is not None and k % 4 == 1:
